@@ -5,8 +5,8 @@ import sys, os, json, subprocess, re, time
 ROOT = os.path.dirname(os.path.dirname(os.path.abspath(__file__)))
 SEEDS = os.path.join(ROOT, "seeded")
 # which checks to try for a seed of a given property (first = its own)
-TRY = {"C01": ["C01"], "C02": ["C02"], "C03": ["C03"], "C04": ["C04", "C06"], "C05": ["C05"], "C06": ["C06"], "C07": ["C07"], "C08": ["C08"],
-       "C09": ["C09"], "C10": ["C10"], "C11": ["C11", "C07"], "C12": ["C12"], "C13": ["C13"], "C14": ["C14", "C05"], "C15": ["C15"],
+TRY = {"C01": ["C01"], "C02": ["C02"], "C03": ["C03"], "C04": ["C04", "C06"], "C05": ["C05", "C16"], "C06": ["C06"], "C07": ["C07"], "C08": ["C08"],
+       "C09": ["C09"], "C10": ["C10"], "C11": ["C11", "C07"], "C12": ["C12", "C07"], "C13": ["C13", "C07"], "C14": ["C14", "C05"], "C15": ["C15"],
        "C16": ["C16"], "C17": ["C17"], "C18": ["C18"], "C19": ["C19"], "C20": ["C20"]}
 
 
